@@ -95,6 +95,17 @@ pub fn run(ctx: &Ctx) -> Value {
             let _ = x.hour();
         }
     }
+    // width aliases of valid replacement values
+    {
+        let d = NaiveDate::from_ymd_opt(2024, 2, 29).unwrap();
+        let n = dn(d);
+        for (f, v) in [("month", 2u32), ("month0", 1), ("day", 29), ("day0", 28), ("ordinal", 60), ("ordinal0", 59)] {
+            for a in crate::rng::alias_u32(v) {
+                tw.emit(ev("with", json!({"f": f, "n": n, "v": big(a as i128)}), || json!(odn(match f {
+                    "month" => d.with_month(a), "month0" => d.with_month0(a), "day" => d.with_day(a), "day0" => d.with_day0(a), "ordinal" => d.with_ordinal(a), _ => d.with_ordinal0(a) }))));
+            }
+        }
+    }
     // n-th weekday of a month: every (month, weekday, n) for 28 year classes (+ range ends)
     let mut years: Vec<i32> = (2000..2028).collect();
     years.extend([-262_143, 262_142, 0, -262_144, 262_143, i32::MIN, i32::MAX]);
